@@ -20,13 +20,13 @@ use tonic::metadata::{AsciiMetadataKey, AsciiMetadataValue, BinaryMetadataValue,
 pub fn run(cfg: &RunCfg) -> Ctx {
     let mut all = Ctx::new();
     #[cfg(feature = "full")]
-    all.merge(par_cases(cfg, "wire", cfg.n(12_000, 16 * 25_000), || (), |_, rng, ctx, i| wire_case(rng, ctx, i)));
+    all.merge(par_cases(cfg, "wire", cfg.n(12_000, 16 * 200_000), || (), |_, rng, ctx, i| wire_case(rng, ctx, i)));
     #[cfg(feature = "full")]
     {
-        all.merge(par_cases(cfg, "h2", cfg.n(100, 16 * 300), || (), |_, rng, ctx, i| h2_case(rng, ctx, i)));
+        all.merge(par_cases(cfg, "h2", cfg.n(100, 16 * 1500), || (), |_, rng, ctx, i| h2_case(rng, ctx, i)));
         all.floor("h2.calls", 50);
     }
-    all.merge(par_cases(cfg, "accessors", cfg.n(25_000, 16 * 50_000), || (), |_, rng, ctx, _| accessor_case(rng, ctx)));
+    all.merge(par_cases(cfg, "accessors", cfg.n(25_000, 16 * 400_000), || (), |_, rng, ctx, _| accessor_case(rng, ctx)));
     for k in ["acc.bin_len_mod3.0", "acc.bin_len_mod3.1", "acc.bin_len_mod3.2", "acc.padded_peer_value", "acc.invalid_base64_value", "acc.repeated_key"] {
         all.floor(k, 10);
     }
